@@ -77,6 +77,7 @@ class CorrelationAnalyzer(BaseAnalyzer):
         xcorr[idx[0], idx[1], ...] = xcorr[idx[1], idx[0], ...]
 
         return ts.TimeSeries(xcorr,
+                             time_unit=self.input.time_unit,
                              sampling_interval=self.input.sampling_interval,
                              t0=-self.input.sampling_interval * (t_points - 1))
 
@@ -113,6 +114,7 @@ class CorrelationAnalyzer(BaseAnalyzer):
         xcorr[idx[0], idx[1], ...] = xcorr[idx[1], idx[0], ...]
 
         return ts.TimeSeries(xcorr,
+                             time_unit=self.input.time_unit,
                              sampling_interval=self.input.sampling_interval,
                              t0=-self.input.sampling_interval * (t_points - 1))
 
